@@ -22,6 +22,7 @@ EXPLANATION = (
     "value identity after the round trip (big ints, NaN, surrogates inside json)."
     " Also decided (rules added after the fifth blind round): (R14.6) generated constructor code (records with keyword field names are built by keyword) never uses a generic field value as a truth value; (R14.3) the descriptor handler is registered exactly when descriptors are enabled."
     " Rules added after the sixth blind round: (R14.7 = R5.4 of C05) the digest setters validate before they store (the JSON form is the hex attributes)."
+    " Rules added after the seventh blind round: (R14.8) a sub-module read as an attribute of its package by the JSON packer / adapter (fieldtypes.net) is imported by module-level code that has certainly run - the module-level import closure of flow.record/__init__ and of the using module; an import inside a function does not count. R14.3 finds the line writer also when it was folded into write() and the descriptor handler."
 )
 RULE_SUMMARY = "instances: encoder branches, decoder conversions, per-field normalisations, writer/line sites, fallback definitions"
 
